@@ -255,6 +255,7 @@ def ValidFrom : List Op → List Op → Prop
   | pre, op :: rest =>
     (match op with
       | Op.blk f k pts => blkOK pre.reverse f k pts = true
+      | Op.del f keys _ _ => delOK f keys = true
       | _ => True) ∧ ValidFrom (pre ++ [op]) rest
 
 /-- blocks of one (file, key): non-empty, ascending, storable times, each starting after the previous one ended -/
